@@ -237,3 +237,16 @@ prop("C13", bounds=PQ_BOUNDS + "; one producer goroutine (Write, Next, optional 
          HS(50, "pq.VerifQueueConcurrent", "same", "3 events, 1 preemption", tiers=("thorough",),
             thorough={"params": {"events": 3, "preempt": 1, "nsizes": 2}, "max_paths": 2000000, "budget": "1700s"}),
      ])
+
+prop("C18",
+     bounds="sequences of 3 (thorough 4) symbolic steps on one path out of: Open, Open with invalid options, Open with both headers damaged, Open with a failure of the first write / short write / sync / truncate / size / mmap call, "
+            "Open when the OS refuses to open the file, Close; plus the FlagWaitLock scenario with two goroutines. Real txfile.Open/File.Close and osfs/lock.go; "
+            "the OS below osfs.File is a model: file content = simulated disk per path, flock = one Boolean per lock-file path (TryLock succeeds iff free, Lock blocks while held)",
+     outside="advisory flock semantics between processes (the stub's contract), longer sequences; natively the same sequences run on real files with the real flock, except injected I/O failures",
+     stubs=["osfs.Open, (*osfs.File).{Size,Truncate,MMap,MUnmap,Sync}, (*os.File).{ReadAt,WriteAt,Close,Name} -> harness model of the OS (one simulated disk per path)",
+            "gofrs/flock TryLock/Lock/Unlock -> one Boolean per path"],
+     harnesses=[
+         H("txfile.VerifPathLock", "lock held exactly while a File is open; second Open fails with a lock error; after Close and after every failing Open the lock is free, no descriptor is left open, the path opens again", "3 steps x 6 step kinds",
+           thorough={"params": {"steps": 4}, "max_paths": 400000, "budget": "1200s"}),
+         H("txfile.VerifPathLockWait", "FlagWaitLock: the second Open blocks until Close, then succeeds; a plain Open meanwhile fails", "2 goroutines"),
+     ])
